@@ -258,7 +258,7 @@ func (m *mergedIterator) initQueue() {
 		if it.Valid() {
 			m.pq = append(m.pq, &item{
 				it:    it,
-				key:   it.Key(),
+				key:   cloneKey(it.Key()),
 				index: i,
 			})
 			it.Next()
@@ -284,7 +284,7 @@ func (m *mergedIterator) HasNext() bool {
 		// if it has value, push back queue and adjust priority
 		it := item.it
 		if it.Valid() {
-			item.key = it.Key()
+			item.key = cloneKey(it.Key())
 			m.pq.Push(item)
 			m.pq.update(item)
 
@@ -297,6 +297,11 @@ func (m *mergedIterator) HasNext() bool {
 // Key returns the key of the current key
 func (m *mergedIterator) Key() []byte {
 	return m.curKey
+}
+
+// cloneKey clones the key of trie iterator, the iterator reuses(modifies) it when moves to next key.
+func cloneKey(key []byte) []byte {
+	return append([]byte(nil), key...)
 }
 
 // item represents an item under priority queue, using key as priority.
